@@ -118,6 +118,77 @@ def work_free(cases):
     return agg
 
 
+def lock_race_probe(rep, ctx, n):
+    """Emitter-level concurrency probe: the real OpenFilterLineage with a cooperative lock, a cooperative heartbeat thread and a
+    client whose emit() yields BEFORE the event leaves (a backend request in flight).  The main task ends the run the way
+    Filter.run does (stop the heartbeat, emit the terminal event) at a random moment of the heartbeat's life; every
+    interleaving at the yield points is drawn at random.  Judged by C18's formula: nothing after the terminal event,
+    exactly one terminal event, START first."""
+    import types
+    from . import life_harness as H, simzmq
+    m = H.modules()
+    Lm = m['Lm']
+    nviol = 0
+    for k in range(n):
+        rng = common.rng(ctx, f'lockrace/{k}')
+        w = simzmq.World(local_clocks=False)
+        simzmq.Context.world = w
+        saved = Lm.threading
+        Lm.threading = types.SimpleNamespace(Thread=simzmq.SimThread, Event=simzmq.SimEvent, Lock=simzmq.SimLock)
+        events = []
+
+        class Client:
+            def emit(self, event):
+                t = w.cur
+                if t is not None:
+                    t.park(('yield',))                   # the request is in flight
+                events.append(getattr(event.eventType, 'name', None) or str(event.eventType))
+        try:
+            em = Lm.OpenFilterLineage(client=Client(), interval=1)
+            em.interval = 0.01
+            ticks = rng.randrange(0, 4)
+            kind = rng.choice(('complete', 'stop'))
+
+            def main():
+                em.emit_start(facets={'a': 1})
+                em.start_lineage_heart_beat()
+                w.sleep(em.interval * ticks + rng.choice((0.0, 0.001, 0.005)))
+                em.stop_lineage_heart_beat()
+                (em.emit_complete if kind == 'complete' else em.emit_stop)()
+                em.stop_lineage_heart_beat()
+                em.emit_complete()                       # the second (idempotent) call of Filter.run's outer finally
+            w.spawn('main', main)
+            for _ in range(600):
+                acts = w.enabled()
+                if not acts:
+                    break
+                nt = [a for a in acts if a[0] != 'timeout']
+                a = rng.choice(nt) if nt and rng.random() < 0.85 else rng.choice(acts)
+                if a[0] == 'timeout' and nt and rng.random() < 0.5:
+                    a = rng.choice(nt)
+                w.do(a)
+                if all(t.state == 'done' for t in w.tasks.values()):
+                    break
+        finally:
+            Lm.threading = saved
+            w.kill_all()
+        rep.case(('lockrace', k))
+        terms = [i for i, e in enumerate(events) if e in ('COMPLETE', 'ABORT', 'FAIL')]
+        bad = None
+        if not events or events[0] != 'START' or events.count('START') != 1:
+            bad = ('start', f'START is not exactly once and first: {events}')
+        elif len(terms) != 1:
+            bad = ('terminal_multiplicity', f'{len(terms)} terminal events: {events}')
+        elif terms[0] != len(events) - 1:
+            bad = ('after_terminal', f'event(s) after the terminal event: {events}')
+        if bad:
+            nviol += 1
+            rep.violation(f'C18_Wellformed (emitter lock discipline, interleaving {k}): {bad[1]}',
+                          {'mode': 'lockrace', 'k': k, 'seed': ctx.seed, 'events': events}, {'kind': bad[0], 'probe': 'lockrace'})
+    rep.extra['lock_race_interleavings'] = n
+    return nviol
+
+
 def random_cases(quick, seed):
     """(life labels, seed) for the model-free random interleavings: the single-cause endings and some two-cause ones"""
     base = [('construct', 'ok'), ('init', 'ok'), ('setup', 'ok')]
@@ -307,6 +378,8 @@ def run(ctx):
     finish_agg(rep, free, 'free-running runs')
     finish_agg(rep, rnd, 'random-interleaving runs')
     rep.exhaustive = allagg['ndrift'] == 0
+    lock_race_probe(rep, ctx, 300 if ctx.quick else 5000)
+    rep.traces += rep.extra['lock_race_interleavings']
     return rep.finish()
 
 
@@ -316,6 +389,15 @@ def replay(ctx):
     w = json.load(open(ctx.replay))
     wit = w['witness']
     rep = Report(ctx)
+    if wit.get('mode') == 'lockrace':
+        ctx.seed = wit.get('seed', ctx.seed)
+        n = lock_race_probe(rep, ctx, wit['k'] + 1)
+        for what, _w, _s in rep.violations:
+            print(f'VIOLATION property=C18 replay={ctx.replay}')
+            print(f'  {what}')
+        if not n:
+            print(f'replay of {ctx.replay}: the emitter lock-discipline probe finds no violation on the current tree')
+        return 1 if n else 0
     if wit.get('mode') == 'replay':
         res = H.replay_lineage(wit['path'], wit['final'], wit['model_events'], [])
         print(f'replay of {ctx.replay}: behaviour {[tuple(l) for l in wit["path"]]}')
